@@ -30,7 +30,7 @@ theorem dispatch_eq_runKinds (c : Char) (buf : Str) (a : Obj) : ∀ (d : List (M
       rcases action prim shw k buf a o with ⟨o', oc⟩
       cases oc <;> simp [ih]
     · have hf : ((m, k) :: r).filter (fun mk => mk.1.hit c) = r.filter (fun mk => mk.1.hit c) := by
-        simp [List.filter_cons, hm]
+        simp [hm]
       rw [hf]
       simpa [dispatch, hm] using ih o
 
